@@ -12,3 +12,101 @@ package ir
 //@   trusted
 //@   modifies everything()
 //@   ensures spec.fromGetFreeRegister(result)
+
+// ---------------------------------------------------------------------------
+// C10: compile-time heights of the close stack (notes/to-be-closed.md)
+// ---------------------------------------------------------------------------
+
+//@ func (lexicalContext).top
+//@   prop C10
+//@   arith int
+//@   modifies nothing
+//@   ensures len(c) > 0 ==> result == c[len(c)-1]
+//@   ensures len(c) == 0 ==> result.height == 0
+
+//@ func (lexicalContext).pop
+//@   prop C10
+//@   arith int
+//@   modifies nothing
+//@   ensures len(c) > 0 ==> len(result0) == len(c) - 1 && result1 == c[len(c)-1] && forall(j, 0, len(c) - 1, result0[j] == c[j])
+//@   ensures len(c) == 0 ==> len(result0) == 0 && result1.height == 0
+
+//@ func (lexicalContext).getHeight
+//@   prop C10
+//@   arith int
+//@   modifies nothing
+//@   ensures len(c) > 0 ==> result == c[len(c)-1].height
+//@   ensures len(c) == 0 ==> result == 0
+
+// A new scope inherits the height of the enclosing one.
+//@ func (lexicalContext).pushNew
+//@   prop C10
+//@   arith int
+//@   modifies everything()
+//@   ensures len(result) == len(c) + 1 && forall(j, 0, len(c), result[j] == c[j])
+//@   ensures len(c) > 0 ==> result[len(c)].height == c[len(c)-1].height
+//@   ensures len(c) == 0 ==> result[len(c)].height == 0
+
+//@ func (lexicalContext).addHeight
+//@   prop C10
+//@   arith int
+//@   modifies c[len(c)-1].height
+//@   ensures result == (len(c) > 0)
+//@   ensures len(c) > 0 ==> c[len(c)-1].height == old(c[len(c)-1].height) + h
+
+// Declaring a to-be-closed variable raises the height of the current scope by
+// one and emits the push.
+//@ func (*CodeBuilder).PushCloseAction
+//@   prop C10
+//@   arith int
+//@   norte
+//@   nocover
+//@   requires c != nil
+//@   modifies everything()
+//@   assert_before_call addHeight: $h == 1
+//@   assert_before_call EmitNoLine: typeis($instr, PushCloseStack) && asType($instr, PushCloseStack).Src == reg
+
+// A truncate instruction is emitted exactly when the target scope is lower than
+// the current one, and it truncates to the target scope's height.
+//@ func (*CodeBuilder).emitTruncate
+//@   prop C10
+//@   arith int
+//@   norte
+//@   nocover
+//@   requires c != nil
+//@   modifies everything()
+//@   assert_before_call EmitNoLine: typeis($instr, TruncateCloseStack) && asType($instr, TruncateCloseStack).Height == m.height && m.height < old(c.context.getHeight())
+
+// Leaving a block truncates to the height of the enclosing scope.
+//@ func (*CodeBuilder).PopContext
+//@   prop C10
+//@   arith int
+//@   norte
+//@   nocover
+//@   requires c != nil
+//@   modifies everything()
+//@   exits any
+//@   loop 1: invariant true
+//@   assert_before_call emitTruncate: len(old(c.context)) >= 2 ==> $m.height == old(c.context[len(c.context)-2].height)
+
+// A jump (goto, break) truncates to the height of the scope that owns the
+// label - not its parent's - so that variables of that scope stay open.
+//@ func (*CodeBuilder).EmitJump
+//@   prop C10
+//@   arith int
+//@   norte
+//@   nocover
+//@   requires c != nil
+//@   modifies everything()
+//@   exits any
+//@   loop 1: invariant true
+//@   assert_before_call emitTruncate: $m.height == top.height
+
+// Tail calls are disabled exactly when the current scope has pending closes.
+//@ func (*CodeBuilder).HasPendingCloseActions
+//@   prop C10
+//@   arith int
+//@   norte
+//@   requires c != nil
+//@   modifies nothing
+//@   ensures result == (c.context.getHeight() > 0)
